@@ -294,10 +294,7 @@ def pipeline(args):
         pre = args.get("pre")
         if pre:
             # history of the output folder: an earlier run of another data set went into the same folder
-            predir = os.path.join(rundir, "pre")
-            truth0, paths0 = build_inputs(pre["spec"], pre.get("opts"), os.path.join(predir, "in"))
-            run_once(predir, truth0, paths0, pre.get("opts"), sched=args.get("sched"), bufsize=args.get("bufsize", 8192),
-                     logname="pre.log", outdir=os.path.join(rundir, "out"), home=os.path.join(rundir, "home"))
+            _run_pre_history(rundir, pre, args, os.path.join(rundir, "out"), os.path.join(rundir, "home"), [])
         if args.get("rerun"):
             # "repeated runs": the same command once more into the folder that already holds its results (--force)
             run_once(rundir, truth, paths, args.get("opts"), sched=args.get("sched"), bufsize=args.get("bufsize", 8192),
@@ -311,6 +308,30 @@ def pipeline(args):
     finally:
         if not args.get("keep"):
             shutil.rmtree(rundir, ignore_errors=True)
+
+
+def _run_pre_history(rundir, pre, args, outdir_, home_, cache):
+    """history of the output folder: an earlier run of ANOTHER data set went into the same folder (with --keep_tmp, or killed at
+    a label-relative point), then the run under test starts there with --force"""
+    predir = os.path.join(rundir, "pre")
+    if not cache:
+        cache.append(build_inputs(pre["spec"], pre.get("opts"), os.path.join(predir, "in")))
+    truth0, paths0 = cache[0]
+    pf = dict(pre["fault"]) if pre.get("fault") else None
+    if pf and "index" not in pf:
+        import re as _re
+        pr_ = run_once(predir, truth0, paths0, pre.get("opts"), sched=args.get("sched"), fault=None,
+                       bufsize=args.get("bufsize", 8192), logname="pre_probe.log",
+                       outdir=os.path.join(predir, "probe_out"), home=os.path.join(predir, "probe_home"))
+        rx = _re.compile(pf.get("label_rx", "."))
+        hits = [seq for seq, slot, label, occ in simrun.event_labels(pr_["trace"]) if rx.search(label)]
+        pf["index"] = hits[int(pf.get("nth", 0)) % len(hits)] if hits else 10 ** 9
+        shutil.rmtree(os.path.join(predir, "probe_out"), ignore_errors=True)
+        shutil.rmtree(os.path.join(predir, "probe_home"), ignore_errors=True)
+    r0_ = run_once(predir, truth0, paths0, pre.get("opts"), sched=args.get("sched"), fault=pf,
+                   bufsize=args.get("bufsize", 8192), logname="pre.log", outdir=outdir_, home=home_)
+    if r0_["harness_error"]:
+        raise RuntimeError("pre-history run: %s" % r0_["harness_error"])
 
 
 def crash_resume(args):
@@ -348,16 +369,7 @@ def crash_resume(args):
         pre = args.get("pre")
 
         def pre_history(outdir_, home_):
-            # history of the output folder: an earlier run of ANOTHER data set went into the same folder (with --keep_tmp, or
-            # killed at a seeded point), then the run under test starts there with --force
-            predir = os.path.join(rundir, "pre")
-            first = not os.path.isdir(predir)
-            truth0, paths0 = build_inputs(pre["spec"], pre.get("opts"), os.path.join(predir, "in")) if first else pre_built[0]
-            pre_built[:] = [(truth0, paths0)]
-            r0_ = run_once(predir, truth0, paths0, pre.get("opts"), sched=args.get("sched"), fault=pre.get("fault"),
-                           bufsize=args.get("bufsize", 8192), logname="pre.log", outdir=outdir_, home=home_)
-            if r0_["harness_error"]:
-                raise RuntimeError("pre-history run: %s" % r0_["harness_error"])
+            _run_pre_history(rundir, pre, args, outdir_, home_, pre_built)
         pre_built = []
         if pre:
             pre_history(os.path.join(rundir, "out"), os.path.join(rundir, "home"))
@@ -479,15 +491,29 @@ def _fresh_digest(gtf_path, complete, scratch):
     return _fresh_cache[key]
 
 
+def _drop_transcript(lines, last=True):
+    """annotation lines without its last (first) transcript; a gene that loses its only transcript goes as a whole, and the last
+    two transcripts of the annotation are never removed (IsoQuant needs an annotation with transcripts)"""
+    import re
+    tids = []
+    for t in re.findall(r'transcript_id "([^"]+)"', "".join(lines)):
+        if t not in tids:
+            tids.append(t)
+    if len(tids) <= 2:
+        return list(lines)
+    victim = tids[-1] if last else tids[0]
+    keep = [l for l in lines if ('transcript_id "%s"' % victim) not in l]
+    genes_left = set(re.findall(r'gene_id "([^"]+)"; transcript_id', "".join(keep)))
+    return [l for l in keep if "transcript_id" in l or re.search(r'gene_id "([^"]+)"', l).group(1) in genes_left]
+
+
 def _edit_gtf(paths, si):
     """content change of the annotation: drop its last transcript (keeps it valid); both representations, newer real mtime"""
     import re
     import gzip as _gz
     with open(paths["gtf"]) as f:
         lines = f.readlines()
-    tids = re.findall(r'transcript_id "([^"]+)"', "".join(lines))
-    victim = tids[-1] if tids else None
-    keep = [l for l in lines if victim is None or ('transcript_id "%s"' % victim) not in l]
+    keep = _drop_transcript(lines, last=True)
     with open(paths["gtf"], "w") as f:
         f.writelines(keep)
     with open(paths["gtf_gz"], "wb") as raw:
@@ -578,9 +604,7 @@ def cache_session(args):
                     # the file is replaced by a different annotation that carries an OLDER mtime (cp -p, rsync -a, tar x)
                     with open(paths["gtf"]) as f:
                         lines = f.readlines()
-                    tids = re.findall(r'transcript_id "([^"]+)"', "".join(lines))
-                    victim = tids[0] if tids else None
-                    keep = [l for l in lines if victim is None or ('transcript_id "%s"' % victim) not in l]
+                    keep = _drop_transcript(lines, last=False)
                     with open(paths["gtf"], "w") as f:
                         f.writelines(keep)
                     import gzip as _gz
